@@ -170,12 +170,20 @@ class RechunkCopy(CopyOpSpec):
     def setup(self, c):
         nd = c.cfg["ndim"]
         x = sym_array(c, "x", nd)
-        copy = c.ints("copy", nd, lo=1)
         tgt = c.ints("tgt", nd, lo=1)
-        for n, cc, tc in zip(x.shape, copy, tgt):
-            c.assume(cc <= n)
+        copy = []
+        for i, (n, tc) in enumerate(zip(x.shape, tgt)):
             c.assume(tc <= n)
-            c.assume(c.Or(cc % tc == 0, cc >= n))
+            # the precondition "copy % target == 0 or copy >= extent", parametrised to stay free of mod terms
+            if c.ctx.branch(c.bool(f"copy{i}_is_full_extent").t):
+                cc = n
+            else:
+                k_ = c.int(f"copy{i}_multiple", lo=1)
+                cc = k_ * tc
+                c.assume(cc <= n)
+            c.ctx.symvars[f"copy{i}"] = tz(cc)
+            copy.append(cc)
+        copy = tuple(copy)
         c.expect_origin = lambda j, g: ("array-x", tuple(g))
         return (x, copy, tgt), dict(allow_irregular=False)
 
@@ -201,18 +209,38 @@ class MergeChunks(CopyOpSpec):
     def setup(self, c):
         nd = c.cfg["ndim"]
         x = sym_array(c, "x", nd)
-        ch = c.ints("m", nd, lo=1)
+        ch = []
+        for i in range(nd):
+            # accepted chunks are multiples of x's chunk size (parametrised); anything else is a separate, rejected case
+            if c.ctx.branch(c.bool(f"m{i}_is_multiple").t):
+                k_ = c.int(f"m{i}_factor", lo=1)
+                m_ = k_ * x.chunksize[i]
+            else:
+                m_ = c.int(f"m{i}", lo=1)
+                c.assume(_not_multiple(m_, x.chunksize[i]))
+            c.ctx.symvars[f"m{i}"] = tz(m_)
+            ch.append(m_)
+        ch = tuple(ch)
         c.expect_origin = lambda j, g: ("array-x", tuple(g))
         return (x, ch), {}
 
     def ensures(self, c, a, k, res):
         x, ch = a
         yield "shape", c.eq_tuple(res.shape, x.shape)
-        yield "accepted-only-multiples", c.And(*[m % xc == 0 for m, xc in zip(ch, x.chunksize)])
+        yield "accepted-only-multiples", c.And(*[~_not_multiple(m, xc) for m, xc in zip(ch, x.chunksize)])
 
     def declines(self, c, a, k, e):
         x, ch = a
-        return c.Or(*[m % xc != 0 for m, xc in zip(ch, x.chunksize)])
+        return c.Or(*[_not_multiple(m, xc) for m, xc in zip(ch, x.chunksize)])
+
+
+def _not_multiple(m, xc):
+    """m is not a multiple of xc (total: a zero chunk size — zero-extent axis — has no multiples but 0)"""
+    from pyvc.sym import tz as _tz, wrap as _wrap
+    import z3 as _z3
+
+    mz, xz = _tz(m), _tz(xc)
+    return _wrap(_z3.If(xz == 0, mz != 0, mz % xz != 0))
 
 
 # ---------------------------------------------------------------------------------------------------------------
